@@ -139,8 +139,20 @@ fn build_fixture(stride: u64) -> Fix {
         let c_v2 = {
             let mut id = radicle::cob::identity::Identity::get_mut(&ObjectId::from(c_v1), &repo).expect("load identity");
             let r = id.update("drop d3", "", &v2, &actors[0]).expect("identity update");
-            id.accept(&r, &actors[1]).expect("identity accept");
-            assert_eq!(id.current, r, "v2 must be adopted by d1+d2");
+            // d2's accept is written as a raw change (d2 has no namespace of its own in this fixture).
+            let sig = id.revision(&r).expect("revision").sign(&actors[1]).expect("sign");
+            let accept = radicle::cob::identity::Action::RevisionAccept { revision: r, signature: sig };
+            let entry = radicle::cob::change::Storage::store(
+                &repo,
+                None,
+                vec![],
+                &actors[1],
+                cob::change::Template { type_name: radicle::cob::identity::TYPENAME.clone(), tips: vec![r], message: "accept".to_string(), embeds: vec![], contents: NonEmpty::new(encode_action(&accept)) },
+            )
+            .expect("store accept");
+            cob::object::Storage::update(&repo, &keys[1], &radicle::cob::identity::TYPENAME, &ObjectId::from(c_v1), &entry.id).expect("update ref");
+            let now = radicle::cob::identity::Identity::get(&ObjectId::from(c_v1), &repo).expect("Identity::get");
+            assert_eq!(now.current, r, "v2 must be adopted by d1+d2");
             r
         };
         let cb0 = plain_commit(&repo, "b0", &[]);
@@ -203,7 +215,7 @@ struct Sys {
     merged_threshold: Option<usize>,
     log: Vec<LogEntry>,
     hist: Vec<Ev>,
-    view: Value,
+    view: String,
 }
 
 fn root_actions() -> Vec<patch::Action> {
@@ -236,14 +248,24 @@ fn state_kind(s: &patch::State) -> &'static str {
 
 impl Sys {
     fn new() -> Sys {
-        Sys { t: 0, patch: None, revs: vec![], recorded: BTreeSet::new(), merged_threshold: None, log: vec![], hist: vec![], view: Value::Null }
+        Sys { t: 0, patch: None, revs: vec![], recorded: BTreeSet::new(), merged_threshold: None, log: vec![], hist: vec![], view: String::new() }
     }
 
-    fn render(&self) -> Value {
-        let names: Vec<(String, String)> = self.revs.iter().enumerate().map(|(i, o)| (hex(o), format!("#r{i}"))).collect();
+    fn names(&self) -> Vec<(String, String)> {
+        self.revs.iter().enumerate().map(|(i, o)| (hex(o), format!("#r{i}"))).collect()
+    }
+
+    fn render(&self) -> String {
+        match &self.patch {
+            None => String::new(),
+            Some(p) => fast_view(p, &self.names()),
+        }
+    }
+
+    fn normal_form(&self) -> Value {
         match &self.patch {
             None => Value::Null,
-            Some(p) => canon_json(p, &names, &["timeline"], &["conflicts", "resolves"]),
+            Some(p) => canon_json(p, &self.names(), &["timeline"], &["conflicts", "resolves"]),
         }
     }
 
@@ -295,7 +317,7 @@ impl Sys {
         for ev in hist {
             let _ = mem.step(ev);
         }
-        let want = mem.view.clone();
+        let want = mem.normal_form();
         let cfg = &f.cfgs[&t];
         with_wrepo(t, |repo| {
             let type_name = patch::TYPENAME.clone();
@@ -463,8 +485,8 @@ fn main() {
     init_env();
     let ctx = Ctx::from_env("C08", "model_checking");
     let thorough = ctx.tier == mcx::Tier::Thorough;
-    // Depth counts the Cfg event: quick D=4 operations, thorough D=6.
-    let (depth, stride) = if thorough { (7usize, 100u64) } else { (5, 0) };
+    // Depth counts the Cfg event: quick D=6 operations, thorough D=8 (the design asked for 4 / 6).
+    let (depth, stride) = if thorough { (9usize, 400u64) } else { (7, 0) };
     if FIX.set(build_fixture(stride)).is_err() {
         unreachable!();
     }
